@@ -484,12 +484,12 @@ Proof.
     rewrite (ip_pair_inpl steps i j s1 s2 o ds1 ds2 Ai Aj), Uij in HK2. apply Nat.eqb_neq in Hne. rewrite Hne in HK2. cbn [negb andb orb] in HK2.
     rewrite (cols_of_xsteps_act steps i _ Ai), (cols_of_xsteps_act steps j _ Aj) in HK2. cbn [fst snd xwrites xreads base] in HK2.
     cbn [ip_ok] in D2. rewrite Nat.eqb_refl in D2. cbn [andb] in D2. unfold cols_compat, disjointb in D2.
-    unfold OrchCheck.disj in HK2. rewrite D2 in HK2. discriminate HK2.
+    unfold OrchCheck.ip_disj in HK2. rewrite D2 in HK2. discriminate HK2.
   - intros [i x] Hx. cbn [snd]. destruct x as [a|sty o ds]; [reflexivity|].
     destruct (Hp i (in_map fst _ _ Hx)) as [si [Hsi Ei]]. pose proof (In_aget _ steps i _ ND Hx) as Ai.
     specialize (HK1 si Hsi). rewrite Ei, (style_of_xsteps_act steps i _ Ai), (cols_of_xsteps_act steps i _ Ai) in HK1.
     cbn [is_inpl negb orb fst snd xwrites xreads base] in HK1. unfold self_ok, names. unfold names in HK1. rewrite map_length in HK1.
-    assert (Q : forall l, OrchCheck.nodupn l = nodupb l) by (induction l as [|z l IHl]; [reflexivity | cbn; rewrite IHl; reflexivity]).
+    assert (Q : forall l, OrchCheck.ip_nodup l = nodupb l) by (induction l as [|z l IHl]; [reflexivity | cbn; rewrite IHl; reflexivity]).
     rewrite Q in HK1. exact HK1.
 Qed.
 
